@@ -6,6 +6,7 @@ Property theorems only; helper lemmas live in FendModel/Proofs/.
 -/
 import FendModel.Proofs.BigUintSub
 import FendModel.Proofs.BigUintPow
+import FendModel.Proofs.BigRatMulDiv
 import FendModel.Model.Pinned
 
 namespace Fend.C01
@@ -41,6 +42,18 @@ theorem pow_errors (a b : BigUint) :
     (a.pow b = .error .zeroPowZero ↔ val a = 0 ∧ val b = 0) ∧
     (a.pow b = .error .exponentTooLarge ↔ val b ≠ 0 ∧ b.fitsU64 = false) :=
   ⟨pow_zero_zero a b, pow_too_large a b⟩
+
+/-- rational layer: `BigRat::mul` is multiplication of the denoted rationals, for every representation (unreduced, any limbs) -/
+theorem rat_mul_exact (a b : BigRat) : BigRat.valQ (BigRat.mul a b) = BigRat.valQ a * BigRat.valQ b := BigRat.mul_valQ a b
+
+/-- `BigRat::div` refuses exactly a zero divisor and is otherwise division of the denoted rationals -/
+theorem rat_div_exact (a b : BigRat) (hw : b.num.WF) :
+    (BigRat.numIsZero b = true → BigRat.div a b = .error .divideByZero) ∧
+    (BigRat.numIsZero b = false → ∃ r, BigRat.div a b = .ok r ∧ (val b.den ≠ 0 → BigRat.valQ r = BigRat.valQ a / BigRat.valQ b)) :=
+  BigRat.div_valQ a b hw
+
+/-- negation negates -/
+theorem rat_neg_exact (a : BigRat) : BigRat.valQ (BigRat.negate a) = - BigRat.valQ a := BigRat.negate_valQ a
 
 /-- Defect D20 (repaired by a `fix:` commit): on the pinned tree `add` was NOT addition.
 Witness: `1 + (2^128 - 1)` gave `2^64`. -/
